@@ -33,6 +33,7 @@ IDS = ["a", "b", "c"]
 SCORE = 50
 KB = 1            # CUTOFF 1 -> 1000 bases
 N_SHARDS = 48
+RANDOM_RULES_PER_SHARD = 4000   # thorough: 16 shards x 4000 random rules x 40 worlds
 
 
 # ------------------------------------------------------------------------------------------------
@@ -465,10 +466,10 @@ def boundary_layout(genes: Sequence[Any], ring: int, cutoff: int) -> bool:
 
 FAMILIES = {
     # family: (layout function, genes, caps per rule class (single, binary, ternary) quick / thorough)
-    "w2": (layouts2, 2, (512, 32, 8), (4096, 512, 128)),
-    "w3": (layouts3, 3, (192, 12, 6), (2048, 128, 48)),
-    "w4": (layouts4, 4, (0, 0, 0), (512, 48, 12)),
-    "sp": (layouts_special, 2, (128, 16, 16), (512, 64, 64)),
+    "w2": (layouts2, 2, (512, 16, 6), (4096, 256, 32)),
+    "w3": (layouts3, 3, (64, 8, 4), (2048, 96, 16)),
+    "w4": (layouts4, 4, (0, 0, 0), (512, 32, 8)),
+    "sp": (layouts_special, 2, (64, 8, 8), (512, 64, 64)),
 }
 
 
@@ -623,7 +624,9 @@ def _run_random(shard: Dict[str, Any], run: Any) -> None:
     cutoff = KB * 1000
     pool = [(layout, build_features(layout["genes"]), ref.near_sets(layout["genes"], cutoff, layout["ring"]))
             for layout in layouts4(cutoff) + layouts3(cutoff)]
-    while not run.out_of_time():
+    for _ in range(RANDOM_RULES_PER_SHARD):
+        if run.out_of_time():
+            break
         node = _random_formula(rng, 3, False)
         if not _well_formed(node):
             continue
